@@ -797,13 +797,17 @@ static void sec_sweep_mid(vf::Ctx& c) {
 
 // ---- section: powers of two +-3 and the top 64 sizes, one entry point per case
 static std::vector<size_t> g_edges;
+// every size in the 2048 values below the top 64: the region where size + guard + padding + record wraps
+static std::vector<size_t> g_top;
 static void init_edges() {
     for (int k = 0; k < 64; k++) for (int d = -3; d <= 3; d++) { size_t p = (size_t) 1 << k; if (d < 0 && p < (size_t) -d) continue; g_edges.push_back(p + (size_t) (long long) d); }
     for (size_t j = 0; j < 64; j++) g_edges.push_back(SIZE_MAX - j);
     std::sort(g_edges.begin(), g_edges.end()); g_edges.erase(std::unique(g_edges.begin(), g_edges.end()), g_edges.end());
+    for (size_t j = 64; j < 64 + 2048; j++) g_top.push_back(SIZE_MAX - j);
 }
+static const std::vector<size_t>* g_edge_src = &g_edges;
 static void sec_sweep_edges(vf::Ctx& c) {
-    size_t n = g_edges[c.idx / EP_N]; int ep = (int) (c.idx % EP_N);
+    size_t n = (*g_edge_src)[c.idx / EP_N]; int ep = (int) (c.idx % EP_N);
     S_clear(); S_victims();
     bool na = false;
     if (ep == EP_REALLOC) { S_add(OP_ALLOC, EP_MALLOC, 0, 33); S_add(OP_REALLOC, EP_REALLOC, 0, n); S_add(OP_REALLOC, EP_REALLOC, 42, n); }
@@ -820,6 +824,8 @@ static void sec_sweep_edges(vf::Ctx& c) {
     if (na) { c.count("edge_cases_not_applicable(strdup of more than 1 MiB)"); return; }
     execute(c, predicts_nothrow_refusal());
 }
+
+static void sec_sweep_top(vf::Ctx& c) { g_edge_src = &g_top; sec_sweep_edges(c); g_edge_src = &g_edges; }
 
 // ---- section: calloc lattice
 struct CPair { size_t cnt, sz; };
@@ -1019,6 +1025,7 @@ int main(int argc, char** argv) {
     std::vector<vf::Section> S = {
         { "sweep_0_to_4096", 4097, 4097, sec_sweep_small, true },
         { "sweep_pow2_and_top64", g_edges.size() * EP_N, g_edges.size() * EP_N, sec_sweep_edges, true },
+        { "sweep_2048_sizes_below_the_top64", g_top.size() * EP_N, g_top.size() * EP_N, sec_sweep_top, true },
         { "calloc_lattice", g_cpairs.size(), g_cpairs.size(), sec_calloc, true },
         { "strdup_lattice", (SD_LEN + 8) * SD_LIM, (SD_LEN + 8) * SD_LIM, sec_strdup, true },
         { "c_out_of_memory", 64, 64, sec_c_oom, true },
